@@ -669,7 +669,7 @@ func (s *State) applyExtension(fn object.Extension, args []object.Object) object
 	}
 	if fn.MaxArgs == -1 {
 		// Only do this for true variadic functions (maxargs == -1)
-		if l > 0 && args[l-1].Type() == object.ARRAY {
+		if l > 0 && object.Value(args[l-1]).Type() == object.ARRAY { // deref: the array can be a variable of an outer scope.
 			args = append(args[:l-1], object.Elements(args[l-1])...)
 			l = len(args)
 			log.Debugf("expending last arg now %d args %v", l, args)
@@ -796,7 +796,7 @@ func (s *State) extendFunctionEnv(
 		n := len(params) - 1
 		params = params[:n]
 		// Expending the last argument expecting it to be "..", but any other array will do too.
-		if len(args) > 0 && args[len(args)-1].Type() == object.ARRAY {
+		if len(args) > 0 && object.Value(args[len(args)-1]).Type() == object.ARRAY { // deref: can be a variable of an outer scope.
 			// full slice expression: never write into the caller's list, it is also the memoization key.
 			last := len(args) - 1
 			args = append(args[:last:last], object.Elements(args[last])...)
